@@ -75,6 +75,8 @@ def main():
             config_guard(chk, facts.REPO)
             from common import state_guard
             state_guard(chk, prog)
+            import surface
+            surface.check(chk, prog, pid)
             fn(chk, prog)
             if a.tier == "thorough":
                 import thorough
